@@ -185,3 +185,61 @@ Definition parse_prot (prot_key prot_val : str) : res (list (str * pval)) :=
   let ascconv_end := find_z ASC_END prot_val in
   let ascconv := drop_first_last (split_on 10%N (py_slice prot_val ascconv_start ascconv_end)) in
   parse_lines ascconv str_delim [].
+
+(** ---------------------------------------------------------------- csa_series_trans_func
+    extract.py:229-247.  The CSA reader (nibabel) and simplify_csa_dict stay outside the model: the
+    input is the simplified dict they deliver -- tag name -> one item (str / int / float) or a list
+    of items, keys unique.
+
+      phx_src = None
+      if 'MrPhoenixProtocol' in csa_dict:   phx_src = 'MrPhoenixProtocol'
+      elif 'MrProtocol' in csa_dict:        phx_src = 'MrProtocol'
+      if not phx_src is None:
+          phoenix_dict = parse_phoenix_prot(phx_src, csa_dict[phx_src])
+          del csa_dict[phx_src]
+          for key, val in phoenix_dict.items():
+              new_key = '%s.%s' % ('MrPhoenixProtocol', key)
+              csa_dict[new_key] = val
+      return csa_dict                                                                        *)
+
+Inductive csa_val := CItem (v : pval) | CItems (l : list pval).
+Definition csa_dict := list (str * csa_val).
+
+Fixpoint cget (k : str) (d : csa_dict) : option csa_val :=
+  match d with
+  | [] => None
+  | (k', v) :: t => if str_eqb k k' then Some v else cget k t
+  end.
+
+Definition chas (k : str) (d : csa_dict) : bool :=
+  match cget k d with Some _ => true | None => false end.
+
+(** [d[k] = v] *)
+Fixpoint cset (k : str) (v : csa_val) (d : csa_dict) : csa_dict :=
+  match d with
+  | [] => [(k, v)]
+  | (k', v') :: t => if str_eqb k k' then (k', v) :: t else (k', v') :: cset k v t
+  end.
+
+(** [del d[k]] (keys are unique) *)
+Definition cdel (k : str) (d : csa_dict) : csa_dict :=
+  filter (fun kv => negb (str_eqb k (fst kv))) d.
+
+(** 'MrPhoenixProtocol.' *)
+Definition PHX_PREFIX : str := K_MrPhoenixProtocol ++ [46%N].
+
+Definition csa_series_merge (csa : csa_dict) : res csa_dict :=
+  let phx_src := if chas K_MrPhoenixProtocol csa then Some K_MrPhoenixProtocol
+                 else if chas K_MrProtocol csa then Some K_MrProtocol
+                 else None in
+  match phx_src with
+  | None => Ok csa
+  | Some src =>
+      match cget src csa with
+      | Some (CItem (PStr prot_val)) =>
+          do phoenix_dict <- parse_prot src prot_val;
+          Ok (fold_left (fun d kv => cset (PHX_PREFIX ++ fst kv) (CItem (snd kv)) d)
+                        phoenix_dict (cdel src csa))
+      | _ => Err EAttr        (* a list / int / float has no .find : AttributeError *)
+      end
+  end.
